@@ -118,7 +118,7 @@ class Gen:
     def srcreg(self, m):
         r = self.r; k, key = self.srckey()
         if k == 'fd': key = self.fd_of(m)
-        if k == 'task': k, key = 'tmr', r.choice(TMR_KEYS)
+        if k == 'task' and r.random() < 0.5: k, key = 'tmr', r.choice(TMR_KEYS)      # task bodies park until the script fires them
         if k == 'sgn' and key:
             if self.sig_owner.setdefault(key, m) != m: key = 0
         p = r.choice([0, 0, 1, 2, 3, 4]) if k != 'fd' else r.choice([0, 0, 3, 2])
@@ -132,7 +132,7 @@ class Gen:
         if regs and x < 0.7:
             t = r.choice(regs)
             if t[2] == 'fd': return 'fdwrite %s' % t[3]
-            if t[2] in ('tmr', 'sgn') and t[3] != '0': return 'fire %s %s %s' % (t[1], t[2], t[3])
+            if t[2] in ('tmr', 'sgn', 'task') and t[3] != '0': return 'fire %s %s %s' % (t[1], t[2], t[3])
         if x < 0.5: return 'fdwrite %d' % r.randint(0, 9)
         if x < 0.75: return 'fire %d tmr %d' % (self.m(), r.choice(TMR_KEYS + BATCH_NS + [1000000000, 500000000, 200000000, 1000000]))
         if x < 0.9: return 'fire %d sgn %d' % (self.m(), r.choice(SIGS))
@@ -231,8 +231,8 @@ def gen_sources_case(rng, P):
     regs = []
     for m in range(g.nm):
         for _ in range(rng.randint(1, 4)):
-            k = rng.choice(['fd', 'fd', 'tmr', 'sgn'])
-            key = {'fd': g.fd_of(m), 'tmr': rng.choice(TMR_KEYS), 'sgn': rng.choice(SIGS)}[k]
+            k = rng.choice(['fd', 'fd', 'tmr', 'sgn', 'task'])
+            key = {'fd': g.fd_of(m), 'tmr': rng.choice(TMR_KEYS), 'sgn': rng.choice(SIGS), 'task': rng.randint(1, 3)}[k]
             if k == 'sgn' and g.sig_owner.setdefault(key, m) != m: continue
             one = 1 if rng.random() < 0.3 else 0
             prog.append('srcreg %d %s %d %d %d 0 %d' % (m, k, key, rng.choice([0, 0, 3]) if k == 'fd' else rng.choice([0, 1, 2, 3]), one, rng.randint(1, 99)))
@@ -513,6 +513,38 @@ def gen_pill_case(rng, P):
     g.procs[1] = prog
     return 'core', g.lines()
 
+def gen_task_case(rng, P):
+    """task sources: a pool thread runs the task body (parked until the script lets it finish), completion is one event for the registering
+    module, the source is one-shot; registration while idle / running, the same task id again after completion, several tasks and modules,
+    refusal of deregistration, other events in the same batch"""
+    g = _base(rng, P, 2, hooks=rng.random() < 0.3)
+    if any(m['heval'] or m['hstart'] or m['hstop'] for m in g.mods): g.build_callbacks()
+    prog = ['ctxreg 1', 'reg 0', 'reg 1']
+    pending = []          # (m, tid) registered and not yet fired
+    if rng.random() < 0.3:
+        prog.append('srcreg 1 task %d 0 0 0 %d' % (1, rng.randint(1, 99))); idle_task = True    # registered while IDLE: the thread starts with the module
+    else: idle_task = False
+    prog += ['start 0', 'start 1', 'dispatch']
+    if idle_task: pending.append((1, 1))
+    for _ in range(rng.randint(3, 9)):
+        x = rng.random(); m = rng.randrange(2)
+        if x < 0.35:
+            tid = rng.randint(1, 3)
+            prog.append('srcreg %d task %d %d %d 0 %d' % (m, tid, rng.choice([0, 0, 1, 2, 3]), rng.randint(0, 1), rng.randint(1, 99)))
+            if (m, tid) not in pending: pending.append((m, tid))
+        elif x < 0.65 and pending:
+            n = rng.randint(1, len(pending)); fired = [pending.pop(rng.randrange(len(pending))) for _ in range(n)]
+            prog += ['fire %d task %d' % f for f in fired]
+            if rng.random() < 0.4: prog.append('tell 0 1 %d 0' % g.newdata())
+            prog += ['dispatch', 'srclen %d 6' % fired[0][0]]
+        elif x < 0.75: prog.append('srcdereg %d task %d' % (m, rng.randint(1, 3)))
+        elif x < 0.85: prog += ['srclen %d 6' % m, 'srclen %d 8' % m]
+        else: prog.append('dispatch')
+    prog += ['fire %d task %d' % f for f in pending] + ['dispatch', 'dispatch', 'srclen 0 6', 'srclen 1 6', 'quit 2', 'dispatch', 'dispatch', 'live',
+             'dereg 0', 'dereg 1', 'ctxdereg', 'live']
+    g.procs[1] = prog
+    return 'core', g.lines()
+
 def gen_registry_case(rng, P):
     """the per-module source registry across state changes: sources of several kinds registered while IDLE / RUNNING / PAUSED, then
     stop (from RUNNING and from PAUSED), restart, pause/resume; after each transition the counts are read and keys are re-registered / deregistered"""
@@ -550,7 +582,8 @@ def gen_registry_case(rng, P):
     return 'core', g.lines()
 
 def gen_registry_or_subs_case(rng, P):
-    return (gen_subs_case if rng.random() < 0.5 else gen_registry_case)(rng, P)
+    x = rng.random()
+    return (gen_subs_case if x < 0.4 else gen_task_case if x < 0.55 else gen_registry_case)(rng, P)
 
 def gen_errno_case(rng, P):
     """errno left behind by EVERY kind of user callback (event handlers, start / stop / eval hooks) while further events of the same
@@ -594,7 +627,7 @@ def gen_errno_case(rng, P):
 
 def gen_sources_or_subs_case(rng, P):
     x = rng.random()
-    return (gen_subs_case if x < 0.25 else gen_errno_case if x < 0.55 else gen_sources_case)(rng, P)
+    return (gen_subs_case if x < 0.2 else gen_errno_case if x < 0.45 else gen_task_case if x < 0.6 else gen_sources_case)(rng, P)
 
 def gen_mixed_case(rng, P):
     return rng.choice([gen_sources_case, gen_stash_case, gen_lifetime_case, gen_lifetime_case, gen_batch_case, gen_become_case, gen_burst_case])(rng, P)
